@@ -283,6 +283,66 @@ func c09Keys(p *core.Prog, r *core.Run, m *echModel, rule string) {
 		r.Check(rule, fmt.Sprintf("keys:store#%d", n), whole && uncond, p.InstrPos(st), "Conn.keys keeps what it held and receives a copy of the caller's key list, whole (%v) and unconditionally (%v): %s", whole, uncond, short(v))
 	}
 	r.Check(rule, "keys:stores", n >= 1, p.Pos(m.newConn.Pos()), "stores to Conn.keys examined (%d)", n)
+	// ... and nothing rearranges the list in place: the only operation that
+	// may write into its array is the append whose result goes back into the field
+	fromKeys := func(e *core.Expr) bool {
+		for e != nil {
+			switch e.Op {
+			case "field":
+				if e.Obj == m.fConn["keys"] {
+					return true
+				}
+				return false
+			case "slice", "phi", "cell", "conv":
+				if e.Op == "phi" || e.Op == "cell" {
+					for _, a := range e.Args {
+						if a.Any(func(x *core.Expr) bool { return x.Op == "field" && x.Obj == m.fConn["keys"] }) {
+							return true
+						}
+					}
+					return false
+				}
+				e = e.Args[0]
+			case "call":
+				if e.Name == "append" && len(e.Args) > 0 {
+					e = e.Args[0]
+					continue
+				}
+				return false
+			default:
+				return false
+			}
+		}
+		return false
+	}
+	nIn := 0
+	for _, s := range allCalls(p, p.PkgFuncs(Ech)) {
+		if len(s.X.Args) == 0 || !matches(`append|sort\.(Slice|SliceStable|Sort|Stable)|slices\.(Sort.*|Reverse|DeleteFunc|Delete|Compact.*|Insert|Replace)|copy|clear`, s.X.Name) || !fromKeys(s.X.Args[0]) {
+			continue
+		}
+		if s.X.Name == "append" {
+			// capacity-limited, or stored back into the field
+			if sl, ok := s.Instr.Common().Args[0].(*ssa.Slice); ok && sl.Max != nil {
+				continue
+			}
+			back := false
+			if cv, ok := s.Instr.(ssa.Value); ok {
+				for _, ref := range *cv.Referrers() {
+					if st, ok := ref.(*ssa.Store); ok {
+						if a := p.X(st.Addr); a.Op == "field" && a.Obj == m.fConn["keys"] {
+							back = true
+						}
+					}
+				}
+			}
+			if back {
+				continue
+			}
+		}
+		nIn++
+		r.Check(rule, fmt.Sprintf("keys:in-place#%d", nIn), false, p.InstrPos(s.Instr), "%s works in place on the configured key list (%s): keys can be lost or reordered", s.X.Name, short(s.X.Args[0]))
+	}
+	r.Check(rule, "keys:in-place", nIn == 0, p.Pos(m.newConn.Pos()), "no in-place operation on the configured key list (%d found)", nIn)
 }
 
 func keyLoopExits(p *core.Prog, r *core.Run, m *echModel, rule string) {
